@@ -25,7 +25,7 @@ ANCHORS = [(_Q, "np_find_quantiles"), (_Q, "find_quantiles"), (_L, "find_common_
            (_L, "CategoricalDiscretizer.fit"), (_L, "OrdinalDiscretizer.fit"), ("AutoCarver/discretizers/discretizers.py", "QuantitativeDiscretizer.fit"),
            ("AutoCarver/discretizers/discretizers.py", "min_value_counts")]
 DECIDING_ANCHORS = [(_Q, "np_find_quantiles"), (_L, "find_common_modalities"), (_L, "CategoricalDiscretizer.fit")]
-N = {"quick": 2400, "thorough": 120000}
+N = {"quick": 4000, "thorough": 120000}
 REQUIRED_COUNTERS = {"quick": {"quant_features": 900, "ordinal_features": 200, "categorical_features": 200, "continuous_discretizer_features": 400,
                                "frequent_values_checked": 500, "values_exactly_on_min_freq": 20},
                      "thorough": {"quant_features": 20000, "ordinal_features": 5000, "categorical_features": 5000, "continuous_discretizer_features": 10000,
